@@ -33,6 +33,7 @@ def valuation(H):
     # an uninterpreted integer-valued term f(i0)
     val[('f', ('i0',))] = H.int('val_f_i0')
     val[('f', ('i1',))] = H.int('val_f_i1')
+    val[('f', (-2,))] = H.int('val_f_m2')
     return val
 
 
@@ -182,7 +183,7 @@ def generated_formulas(conn):
     f = Function('f', Sort.integer, Sort.integer)
     b0, b1, i0, i1 = B('b0'), B('b1'), I('i0'), I('i1')
     bools = [True, False, b0, b1, mk('not', b0), mk('and', b0, b1), mk('<', i0, i1), mk('distinct', i0, i1, i0)]
-    ints = [0, 7, i0, i1, f(i0)]
+    ints = [0, 7, -1, i0, i1, f(i0), f(-2)]
     out = []
     if conn in ('and', 'or'):
         for n in (1, 2, 3):
@@ -196,7 +197,9 @@ def generated_formulas(conn):
     elif conn == '=':
         out += [mk('=', a, b) for a in ints for b in ints] + [mk('=', a, b) for a in bools for b in bools]
     elif conn == 'distinct':
-        for n in (1, 2, 3):
+        # one argument: only through the interface (a raw one-argument "distinct" is not a formula the interface produces)
+        out += [cf.add_distinct(t) for t in ints]
+        for n in (2, 3):
             out += [mk('distinct', *t) for t in itertools.product(ints, repeat=n)]
         out += [mk('=>', mk('distinct', i0, i1, i0), b0), mk('and', mk('distinct', i0, i0), mk('distinct', i1, i0, i1))]
     return out
